@@ -339,6 +339,44 @@ func ruleC07R3(c *Ctx) {
 				}
 			}
 		}
+		// or through a method of the record applied to the destination with the source's field as argument
+		if !ok {
+			core.EachInstr(mergeFn, func(i ssa.Instruction) {
+				call, isCall := i.(*ssa.Call)
+				if !isCall {
+					return
+				}
+				callee := call.Call.StaticCallee()
+				if callee == nil || !c.P.InPkg(callee) || callee == mergeFn || len(call.Call.Args) < 2 || len(callee.Params) != len(call.Call.Args) || !isParamOrLoad(call.Call.Args[0], dst) {
+					return
+				}
+				for j := 1; j < len(call.Call.Args); j++ {
+					if !dependsOn(call.Call.Args[j], srcLoads, 6) {
+						continue
+					}
+					pj := []ssa.Value{callee.Params[j]}
+					cfi := core.Info(callee)
+					core.EachInstr(callee, func(k2 ssa.Instruction) {
+						st2, isSt := k2.(*ssa.Store)
+						if !isSt {
+							return
+						}
+						fa, isFa := st2.Addr.(*ssa.FieldAddr)
+						if !isFa || fa.Field != k || !isParamOrLoad(fa.X, callee.Params[0]) {
+							return
+						}
+						if dependsOn(st2.Val, pj, 6) {
+							ok = true
+						}
+						for _, br := range cfi.DomGuards(st2.Block()) {
+							if cond, _ := br.Cond(); cond != nil && dependsOn(cond, pj, 6) {
+								ok = true
+							}
+						}
+					})
+				}
+			})
+		}
 		c.R.Check(ok, rule, "merge:"+f.Name(), c.P.Pos(f.Pos()), "the destination's "+f.Name()+" is updated from the source's "+f.Name(),
 			"merge does not propagate annotations field "+f.Name()+" from the source record to the destination: evaluations recorded by an in-place subschema would be forgotten")
 	}
